@@ -13,7 +13,7 @@ RULE = {
     "non-trivial = distinct (policy, associativity, reachable state) with associativity >= 2 / cache histories with >= 1 eviction; distinct by state or case hash."
 }
 ASSUMPTIONS = {"C10": ["reference policies R5 (timestamps for LRU, explicit node tree for PLRU)", "LRU get_repr() is judged by the order it induces (ascending = oldest first), not by its absolute numbers", "associativities above the explored bound are only sampled by random histories"]}
-REQUIRED = {"C10": ["bfs_transitions", "victim_checks", "idempotence_checks", "lru_order_checks", "set_tag_checks", "evictions", "random_history_accesses"]}
+REQUIRED = {"C10": ["bfs_transitions", "victim_checks", "idempotence_checks", "lru_order_checks", "set_tag_checks", "evictions", "random_history_accesses", "simcfg_fills_observed", "contains_probes"]}
 
 
 def plan(prop, tier, seed):
@@ -26,6 +26,7 @@ def plan(prop, tier, seed):
     sh += [{"kind": "random", "n": 40 if q else 600, "shard": i} for i in range(2 if q else 8)]
     sh += [{"engine": "cache", "kind": "hist", "n": 80 if q else 1500, "ops": 150, "shard": i} for i in range(6 if q else 16)]
     sh += [{"engine": "cache", "kind": "bfs", "depth": 4 if q else 6, "cfgi": i, "shard": i, "acct": True} for i in (1, 2, 6, 7)]
+    sh += [{"kind": "simcfg", "n": 120 if q else 2500, "shard": i} for i in range(3 if q else 8)]
     return sh
 
 
@@ -111,8 +112,58 @@ def run_bfs(spec, res):
     res.extra["exploration"] = "all reachable states (by public get_repr()) x all access(i), LRU and PLRU, on the real objects"
 
 
+def run_simcfg_case(case, res):
+    """the policies as CONFIGURED through CacheOptions on a simulation: single-cycle runs, the instruction cache is
+    observed through get_instruction_cache_entries() (one fetch per step at the pc), the data cache through
+    get_data_cache_entries() (one access per load/store at the address computed from the registers before the
+    step); each must fill the way its own configured policy selects."""
+    from ..common import make_riscv, install_program, set_regs, preload_mem, real_regs
+    from ..refmodels.rv32 import srcs, LOADS, STORES
+    from .cache import PolicyObserver, view_of
+
+    dc, ic = case.get("dcache"), case.get("icache")
+    sim = make_riscv("single", dcache=dc, icache=ic)
+    install_program(sim, case["prog"])
+    set_regs(sim, case["regs"])
+    preload_mem(sim, case["mem"])
+    prog = {4 * i: d for i, d in enumerate(case["prog"])}
+    obs_i = PolicyObserver(ic["ib"], ic["bb"], ic["assoc"], ic["policy"], view_of(sim.get_instruction_cache_entries())) if ic else None
+    obs_d = PolicyObserver(dc["ib"], dc["bb"], dc["assoc"], dc["policy"], view_of(sim.get_data_cache_entries())) if dc else None
+    k = 0
+    while not sim.is_done() and k < 250:
+        pc = sim.state.program_counter
+        d = prog.get(pc)
+        rr = real_regs(sim)
+        try:
+            sim.step()
+        except Exception:
+            break
+        k += 1
+        res.count("simcfg_steps")
+        if obs_i:
+            r = obs_i.observe(view_of(sim.get_instruction_cache_entries()), pc)
+            if r:
+                res.violation("C10", r[0], "instruction cache configured as %s: step %d (fetch at %d): %s" % (ic["policy"], k, pc, r[1]), case)
+                return
+        if obs_d and d is not None:
+            addr = None
+            if d["m"] in LOADS or d["m"] in STORES:
+                addr = (rr[d["rs1"]] + d["imm"]) & 0xFFFFFFFF
+            r = obs_d.observe(view_of(sim.get_data_cache_entries()), addr)
+            if r and addr is not None:
+                res.violation("C10", r[0], "data cache configured as %s: step %d (%s at %#x): %s" % (dc["policy"], k, d["m"], addr, r[1]), case)
+                return
+    fills = (obs_i.fills if obs_i else 0) + (obs_d.fills if obs_d else 0)
+    res.count("simcfg_fills_observed", fills)
+    if fills > 4:
+        res.nontrivial(h64(case))
+
+
 def run_case(prop, case, res):
     """replay: a path of accesses from the fresh state"""
+    if case.get("kind") == "simcfg":
+        run_simcfg_case(case, res)
+        return
     policy, assoc = case["policy"], case["assoc"]
     real, ref = make(policy, assoc)
     path = case.get("path", [])
@@ -123,9 +174,41 @@ def run_case(prop, case, res):
             return
 
 
+def gen_simcfg_case(rng):
+    from ..gen import progs as G
+
+    def cfg(data):
+        policy = rng.choice(["lru", "plru"])
+        c = {"ib": rng.choice([0, 0, 1]), "bb": rng.choice([0, 0, 1]), "assoc": rng.choice([2, 4, 8] if policy == "plru" else [2, 3, 4, 5]), "policy": policy, "pen": 0}
+        if data:
+            c["wt"] = rng.random() < 0.5
+        return c
+
+    if rng.random() < 0.6:
+        prog, regs = G.structured_program(rng, size=rng.randint(8, 40), aligned=True)
+    else:
+        prog, regs = G.soup_program(rng, rng.randint(6, 30), aligned=True, mem_w=0.35, window=256), G.soup_regs(rng, bad_ecall=0)
+    regs["17"] = rng.choice([1, 11, 34, 36])  # no print-string (many uncounted reads in one step)
+    case = {"kind": "simcfg", "prog": prog, "regs": regs, "mem": G.init_mem(rng), "icache": cfg(False) if rng.random() < 0.8 else None, "dcache": cfg(True) if rng.random() < 0.8 else None}
+    if not case["icache"] and not case["dcache"]:
+        case["icache"] = cfg(False)
+    return case
+
+
 def run_shard(spec, res):
     if spec["kind"] == "bfs":
         run_bfs(spec, res)
+        return
+    if spec["kind"] == "simcfg":
+        from ..common import guarded
+
+        rng = rng_for("C10", spec["tier"], spec["seed"], "simcfg", spec["shard"])
+        for it in range(spec["n"]):
+            case = gen_simcfg_case(rng)
+            guarded(run_case, "C10", case, res)
+            res.evaluations += 1
+            if it < 1:
+                res.sample(case, 20)
         return
     rng = rng_for("C10", spec["tier"], spec["seed"], spec["shard"])
     for it in range(spec["n"]):
